@@ -28,8 +28,11 @@ def link(src, dst, pos, j):
     from vf.common import Property, Element, Array, AnyOf, OneOf, AllOf, Not, Integer, NotPassed
 
     def put(el):
-        src.properties["d%d" % j] = Property(el)
+        src.properties[PROP_NAMES[j] if PROP_NAMES else "d%d" % j] = Property(el)
 
+    if PROP_NAMES and pos.startswith("cls_"):
+        # decoy member named like a keyword, on a class that also USES keywords
+        src.properties[PROP_NAMES[j]] = Property(Integer())
     if pos == "properties":
         put(dst)
     elif pos == "items":
@@ -92,6 +95,18 @@ def link(src, dst, pos, j):
 
 
 NAMES = None  # optional naming scheme (default C0, C1, ...)
+PROP_NAMES = None  # optional names for the properties that carry the dependencies (default d0, d1, ...)
+
+
+def order_ok_propnames(n, edges, roots, pos_of, prop_names):
+    """same spec with dependency-carrying properties named like keywords / attributes of the class"""
+    global PROP_NAMES
+    PROP_NAMES = list(prop_names)
+    try:
+        return order_ok(n, edges, roots, pos_of)
+    finally:
+        PROP_NAMES = None
+
 
 
 def order_ok_named(n, edges, roots, pos_of, names):
@@ -115,7 +130,9 @@ def order_ok(n, edges, roots, pos_of):
     if _tracing():
         from crosshair.tracers import NoTracing
 
-        with NoTracing():
+        from vf.prelude import real_hash
+
+        with NoTracing(), real_hash():
             return _order_ok(n, edges, roots, pos_of)
     return _order_ok(n, edges, roots, pos_of)
 
@@ -218,6 +235,12 @@ def harnesses(ctx) -> List[H]:
             hs.append(mk(f"c11_n3_names_{scheme}_{pos}", _edge_args(off3) + ", r0: bool, r1: bool, r2: bool", ["r0 or r1 or r2"],
                          f"return order_ok_named(3, {_edge_dict(off3)}, [r0, r1, r2], lambda i, j: {pos!r}, {nm!r})", tier="quick" if pos == "properties" else "thorough", timeout=400, group="names",
                          covers=f"3 classes named {nm} (names containing each other), dependency under {pos}"))
+    # properties named like the keywords / attributes the traversal itself looks up on a class
+    for scheme, pn in (("keywords", ["properties", "additionalProperties", "items"]), ("keywords2", ["patternProperties", "dependencies", "propertyNames"]), ("attrs", ["default", "__name__", "elements"])):
+        for pos in ("properties", "cls_additionalProperties", "cls_dependencies"):
+            hs.append(mk(f"c11_n3_propnames_{scheme}_{pos}", _edge_args(off3) + ", r0: bool, r1: bool, r2: bool", ["r0 or r1 or r2"],
+                         f"return order_ok_propnames(3, {_edge_dict(off3)}, [r0, r1, r2], lambda i, j: {pos!r}, {pn!r})", tier="quick" if scheme == "keywords" else "thorough", timeout=400, group="names",
+                         covers=f"3 classes whose dependency-carrying properties are named {pn}, further dependency under {pos}"))
     # mixed positions on n=3: position chosen per edge
     mix = "lambda i, j: %r[(2 * i + j) %% %d]" % (POSITIONS, len(POSITIONS))
     hs.append(mk("c11_n3_mixed_a", _edge_args(off3) + ", r0: bool, r1: bool, r2: bool", ["r0 or r1 or r2"],
